@@ -31,7 +31,7 @@ ASSUMPTIONS = ["the peers' CRC is an independent bitwise CRC-16/MODBUS; the HEX 
 REQUIRED_PROBES = ["transfers_completed", "retransmissions", "nodes_interleaved", "hex_loaded", "history_block_responses"]
 
 LENGTHS = [1, 15, 16, 17, 127, 128, 129, 255, 256, 257, 383, 384, 385, 1023, 1024, 1025, 2047, 2048]
-BIG = [4095, 4096, 8191, 16384, 32767, 32768]
+BIG = [4095, 4096, 8191, 16384, 30720, 30721, 32767, 32768]
 
 
 HISTORY_WEIGHTS = {"ctl_fw": 16, "stream_cfg": 16, "stream_blk": 30, "stream_bad": 3, "stream_other": 1, "value": 4, "present_node": 8,
@@ -52,10 +52,14 @@ def gen(rng, tier, index):
         ops = netgen.make_ops(rng, cfg["version"], rng.randint(20, 60), HISTORY_WEIGHTS, nodes=(1, 3), image_max=400)
         return {"cfg": dict(cfg, mode="history"), "ops": ops}
     flavour = rng.choice(["serial", "tcp", "aserial", "atcp"])
+    if rng.random() < 0.05:
+        ln = rng.choice([16, 100, 300, 1000])
+        return {"cfg": {"mode": "crowd", "flavour": flavour, "version": rng.choice(["1.4", "2.0", "2.2"]), "n_nodes": rng.choice([40, 110, 140, 200]),
+                        "image": bytes(rng.randrange(256) for _ in range(ln)).hex(), "blk": rng.randrange(64)}, "ops": []}
     images = []
     for _ in range(rng.randint(1, 3)):
-        if tier == "thorough" and rng.random() < 0.04:
-            ln = rng.choice(BIG)
+        if rng.random() < (0.04 if tier == "thorough" else 0.025):
+            ln = rng.choice(BIG)  # the top of the size range (the 16-bit block counter's limit is 32768 bytes)
         elif rng.random() < 0.75:
             ln = rng.choice(LENGTHS)
         else:
@@ -276,10 +280,89 @@ def _run_history(case):
     return res
 
 
+def _run_crowd(case):
+    """Many nodes at once: after a power cut 110-140 nodes ask for their firmware in the same moment (one big read on
+    the threaded flavours: all requests are queued before the pump gets to the first).  Every one of them is answered."""
+    cfg = case["cfg"]
+    flavour = cfg["flavour"]
+    world = W.World(flavour, {"protocol_version": cfg["version"], "reconnect_timeout": 1e7}, sched={"policy": "serial"}, max_steps=6_000_000)
+    sim = world.sim
+    violations, probes, faults = [], {}, {}
+    incomplete = None
+    try:
+        try:
+            gateway = world.build()
+            world.start()
+            nodes = list(range(1, cfg["n_nodes"] + 1))
+            world.feed("".join(f"{n};255;0;0;17;2.0\n" for n in nodes))
+            image = bytes.fromhex(cfg["image"])
+            if W.is_async(flavour):
+                world.on_loop(lambda: gateway.tasks.ota.make_update(nodes, 7, 3, image))
+            else:
+                gateway.tasks.ota.make_update(nodes, 7, 3, image)
+            padded = image + b"\xff" * ((-len(image)) % 128)
+            blocks = len(padded) // 16
+            crc = crc16_modbus(padded)
+            base = len(world.device.writes)
+            world.feed("".join(f"{n};255;4;0;0;{le16(1, 1, 8, 0xABCD, 0x0102)}\n" for n in nodes))
+            world.settle()
+            world.advance(0.5)
+            got = {}
+            for text in world.written_lines(base):
+                parts = text.split(";")
+                if len(parts) == 6 and parts[2] == "4" and parts[4] == "1":
+                    got.setdefault(int(parts[0]), []).append(parts[5])
+            want_cfg = le16(7, 3, blocks, crc)
+            missing = [n for n in nodes if n not in got]
+            wrong = [n for n in nodes if n in got and (len(got[n]) != 1 or got[n][0].lower() != want_cfg.lower())]
+            if missing:
+                violations.append(_vio("ota-not-finished", {"note": "config request of a scheduled node not answered (crowd)", "nodes": missing[:8], "count": len(missing),
+                                                            "of": len(nodes)}, state="crowd-config"))
+            elif wrong:
+                violations.append(_vio("ota-advertised-wrong", {"nodes": wrong[:5], "got": got[wrong[0]][:2], "want": want_cfg}))
+            else:
+                probes["crowd_config_answered"] = len(nodes)
+                base = len(world.device.writes)
+                idx = cfg["blk"] % blocks
+                world.feed("".join(f"{n};255;4;0;2;{le16(7, 3, idx)}\n" for n in nodes))
+                world.settle()
+                world.advance(0.5)
+                got = {}
+                for text in world.written_lines(base):
+                    parts = text.split(";")
+                    if len(parts) == 6 and parts[2] == "4" and parts[4] == "3":
+                        got.setdefault(int(parts[0]), []).append(parts[5])
+                want_blk = (le16(7, 3, idx) + padded[idx * 16:(idx + 1) * 16].hex()).lower()
+                missing = [n for n in nodes if n not in got]
+                wrong = [n for n in nodes if n in got and (len(got[n]) != 1 or got[n][0].lower() != want_blk)]
+                if missing:
+                    violations.append(_vio("ota-block-missing", {"note": "block request not answered (crowd)", "nodes": missing[:8], "count": len(missing), "of": len(nodes), "blk": idx}))
+                elif wrong:
+                    violations.append(_vio("ota-block-wrong", {"nodes": wrong[:5], "got": got[wrong[0]][:2], "want": want_blk}))
+                else:
+                    probes["crowd_blocks_answered"] = len(nodes)
+            for role, exc, trace in sim.died:
+                violations.append(_vio("thread-died", {"role": role, "exc": exc, "trace": trace[-1000:]}, role=role, exc=exc.split("(")[0]))
+        except kernel.SimAbort as exc:
+            incomplete = str(exc)
+        except kernel.Deadlock as exc:
+            incomplete = "deadlock: " + str(exc)[:200]
+    finally:
+        digest = sim.digest()
+        steps = sim.steps
+        now = sim.now
+        world.close()
+    return {"violations": violations, "digest": digest, "nontrivial": bool(probes.get("crowd_blocks_answered")), "key": digest, "probes": probes, "faults": faults,
+            "steps": steps, "sim_seconds": now, "incomplete": incomplete, "states": [],
+            "sample": {"mode": "crowd", "flavour": flavour, "nodes": cfg["n_nodes"], "image_len": len(cfg["image"]) // 2}}
+
+
 def run(case):
     cfg = case["cfg"]
     if cfg.get("mode") == "history":
         return _run_history(case)
+    if cfg.get("mode") == "crowd":
+        return _run_crowd(case)
     flavour = cfg["flavour"]
     fs = simfs.SimFS()
     world = W.World(flavour, {"protocol_version": cfg["version"], "reconnect_timeout": 1e7}, fs=fs, sched=cfg["sched"], max_steps=6_000_000)
